@@ -115,6 +115,7 @@ Proof.
   pose proof (reach_shape r idk _ R) as Sh. unfold p_shape in Sh. cbn [ps_c] in Sh.
   rewrite (to_of_cs c N) in Sh. apply andb_true_iff in Sh as [_ Sh].
   rewrite forallb_forall in Sh. specialize (Sh _ (abs_ev_in c (d_stored d) e)).
+  apply andb_true_iff in Sh as [Sh _].
   unfold shape_ok in Sh. rewrite E in Sh.
   apply andb_true_iff in Sh as [Sh Sh3]. apply andb_true_iff in Sh as [Sh1 Sh2].
   apply negb_true_iff in Sh2.
